@@ -4,6 +4,7 @@
 -/
 import UVerifProofs.Lemmas.CfloatVal
 import UVerifProofs.Lemmas.CfloatFromIeee
+import UVerifProofs.Lemmas.CfloatFromInt
 open UVerif UVerif.Cfloat UVerif.Generated
 
 /-- exact value a finite IEEE source denotes, as an expectation -/
@@ -13,7 +14,7 @@ def C03_cfloat_expect (src : Val) : Expect :=
   | .inf s => .inf s
   | .fin s x => if x = 0 then .zero (some s) else .real (if s then -x else x)
 
-/-- full statement for double sources (false of the pinned code: NaN payloads, subnormal sources, sat+sup) -/
+/-- full statement for double sources (false of the code: subnormal sources, sat+sup; NaN payloads were repaired) -/
 def C03_cfloat_from_f64_full : Prop :=
   ∀ (c : Cfg) (bits : Nat), c.valid = true → bits < 2 ^ 64 →
     satisfies c (C03_cfloat_expect (ieeeVal 11 52 bits)) (fromIeee c 11 52 ieeeF64_qnanmask ieeeF64_snanmask bits) = true
@@ -80,16 +81,53 @@ theorem C03_cfloat_from_f64_nan (c : Cfg) (hv : c.valid = true) :
   rw [e1, e2]
   exact ⟨sat_nan c hv _ hq.1 (isNan_of_isNanEnc c hv _ hq.2.1), sat_nan c hv _ hs.1 (isNan_of_isNanEnc c hv _ hs.2.1)⟩
 
-/-- a NaN with any other payload is converted like a number of magnitude 2^1024: +inf for cfloat<40,8> (known finding) -/
-theorem C03_cfloat_from_f64_nan_payload_counterexample :
-    let c : Cfg := { nbits := 40, es := 8, bt := 32, sub := true }
+/-- **every NaN source gives a NaN** (after the repair "must convert a NaN with any payload to a NaN"): for every valid
+    configuration, every source format (seb exponent bits, sfb fraction bits, any pair of recognition masks) and every
+    bit pattern with the exponent field all ones and a non-zero fraction — any payload, either sign — the result of
+    convert_ieee754 is a canonical NaN encoding. Before the repair only three fraction patterns were recognised and
+    every other NaN was converted as a number of magnitude 2^(2^(seb−1)): `cfloat 40 8 u32 100 fromd 7ff0000000000001
+    => 7ffffffffe` (+inf). -/
+theorem C03_cfloat_from_ieee_nan (c : Cfg) (hv : c.valid = true) (seb sfb qm sm bits : Nat)
+    (he : (bits >>> sfb) % 2 ^ seb = 2 ^ seb - 1) (hf : bits % 2 ^ sfb ≠ 0) :
+    satisfies c .nan (fromIeee c seb sfb qm sm bits) = true := by
+  have hq := qnan_facts c hv
+  have hs := snan_facts c hv
+  have hQ := sat_nan c hv _ hq.1 (isNan_of_isNanEnc c hv _ hq.2.1)
+  have hS := sat_nan c hv _ hs.1 (isNan_of_isNanEnc c hv _ hs.2.1)
+  have key : ∃ r, ieeeSpecial c seb sfb qm sm bits = some r ∧ (r = qnan c ∨ r = snan c) := by
+    unfold ieeeSpecial
+    simp only [he, if_true]
+    split_ifs
+    · exact ⟨_, rfl, Or.inr rfl⟩
+    · exact ⟨_, rfl, Or.inl rfl⟩
+    · exact ⟨_, rfl, Or.inl rfl⟩
+    · exact ⟨_, rfl, Or.inr rfl⟩
+  obtain ⟨r, hr, hcase⟩ := key
+  rw [C03_fromIeee_of_special c seb sfb qm sm bits r hr]
+  rcases hcase with h | h <;> rw [h] <;> assumption
+
+/-- double and float instances, incl. the former witness (signalling NaN with payload 1 into cfloat<40,8>) -/
+theorem C03_cfloat_from_f64_nan_any (c : Cfg) (hv : c.valid = true) (bits : Nat)
+    (he : (bits >>> 52) % 2 ^ 11 = 2 ^ 11 - 1) (hf : bits % 2 ^ 52 ≠ 0) :
+    satisfies c .nan (fromIeee c 11 52 ieeeF64_qnanmask ieeeF64_snanmask bits) = true :=
+  C03_cfloat_from_ieee_nan c hv 11 52 _ _ bits he hf
+
+theorem C03_cfloat_from_f32_nan_any (c : Cfg) (hv : c.valid = true) (bits : Nat)
+    (he : (bits >>> 23) % 2 ^ 8 = 2 ^ 8 - 1) (hf : bits % 2 ^ 23 ≠ 0) :
+    satisfies c .nan (fromIeee c 8 23 ieeeF32_qnanmask ieeeF32_snanmask bits) = true :=
+  C03_cfloat_from_ieee_nan c hv 8 23 _ _ bits he hf
+
+example : let c : Cfg := { nbits := 40, es := 8, bt := 32, sub := true }
     (ieeeVal 11 52 0x7ff0000000000001).isNan = true ∧
-    fromIeee c 11 52 ieeeF64_qnanmask ieeeF64_snanmask 0x7ff0000000000001 = 0x7ffffffffe ∧ isInf c 0x7ffffffffe = true := by
+    fromIeee c 11 52 ieeeF64_qnanmask ieeeF64_snanmask 0x7ff0000000000001 = snan c ∧
+    fromIeee c 11 52 ieeeF64_qnanmask ieeeF64_snanmask 0xfff8000000000001 = qnan c := by
   decide +kernel
 
+/-- still false in general: saturating configurations with supernormals return the infinity encoding for an
+    out-of-range source (known finding cfloat.sat_sup.maxpos_is_inf): 16.0 into cfloat<6,2,sub,sup,sat> -/
 theorem C03_cfloat_from_f64_full_false : ¬ C03_cfloat_from_f64_full := by
   intro h
-  have := h { nbits := 40, es := 8, bt := 32, sub := true } 0x7ff0000000000001 (by decide) (by decide)
+  have := h { nbits := 6, es := 2, bt := 8, sub := true, sup := true, sat := true } 0x4030000000000000 (by decide) (by decide)
   revert this
   decide +kernel
 
@@ -107,21 +145,173 @@ theorem C03_cfloat_from_f32_full_false : ¬ C03_cfloat_from_f32_full := by
   revert this
   decide +kernel
 
-/-- integer round<>: the carry out of the rounded fraction is halved instead of cleared: 127 ↦ 192 in cfloat<8,4> -/
-theorem C03_cfloat_from_int_carry_counterexample :
+/-- integer round<> after the repair "must clear the fraction when rounding carries into the next binade": the former
+    witness 127 ↦ 192 of cfloat<8,4> now gives 128 = 0x70, the nearest value -/
+theorem C03_cfloat_from_int_carry_cfg :
     let c : Cfg := { nbits := 8, es := 4, sub := true }
-    fromSigned c 8 127 = 0x74 ∧ cfVal c 0x74 = .fin false 192 ∧ nearestNZ c 127 0x74 = false ∧ nearestNZ c 127 0x70 = true := by
+    fromSigned c 8 127 = 0x70 ∧ cfVal c 0x70 = .fin false 128 ∧ nearestNZ c 127 0x70 = true := by
   decide +kernel
 
-/-- integer round<>: the sticky mask skips one bit: −212 ↦ −192 in cfloat<7,4> (nearest is −224) -/
-theorem C03_cfloat_from_int_sticky_counterexample :
+/-- integer round<> after the repair "sticky mask must include the bit below the round bit": the former witness
+    −212 ↦ −192 of cfloat<7,4> (discarded bits .101 taken for a tie) now gives −224 = 0x7b, the nearest value -/
+theorem C03_cfloat_from_int_sticky_cfg :
     let c : Cfg := { nbits := 7, es := 4 }
-    fromSigned c 16 (-212) = 0x7a ∧ nearestNZ c (-212) 0x7a = false ∧ nearestNZ c (-212) 0x7b = true := by
+    fromSigned c 16 (-212) = 0x7b ∧ nearestNZ c (-212) 0x7b = true := by
+  decide +kernel
+
+/-- every non-zero `signed char` converts to the nearest value of cfloat<8,4,sub> (range ±480, spacing up to 32: ties,
+    carries into the next binade and all discarded-bit patterns occur) through each of the four source widths — a
+    finite test of the repaired `round<>` -/
+theorem C03_cfloat_from_int_cfg_8_4 :
+    ∀ k : Fin 256, let c : Cfg := { nbits := 8, es := 4, sub := true }
+      let v : Int := (k.val : Int) - 128
+      v = 0 ∨ (nearestNZ c (v : ℚ) (fromSigned c 8 v) = true ∧ nearestNZ c (v : ℚ) (fromSigned c 64 v) = true) := by
+  decide +kernel
+
+/-- the side condition of the integer theorem, decidable on the inputs: the target fits the 64-bit assembly of the
+    routine, its fraction is narrower than the source type (so `round<>` rounds), and the integer's binade ⌊log2 |v|⌋ is
+    a normal binade of the target at least two below the all-ones exponent (inside it: no overflow, no NaN/inf
+    pattern, not the subnormal binade of es = 1 — the regions of the two findings that are recorded,
+    cfloat.from_int.out_of_range and cfloat.from_int.subnormal_target) -/
+def C03_cfloat_from_int_inRange (c : Cfg) (w mag : Nat) : Bool :=
+  decide (c.nbits ≤ 64) && decide (c.fbits + 1 < w) &&
+  decide (1 ≤ (Nat.log2 mag : Int) + c.bias) && decide ((Nat.log2 mag : Int) + c.bias + 1 < c.emax)
+
+/-- **integer → cfloat is correctly rounded** (`convert_signed_integer` / `convert_unsigned_integer` + `round<>`, after
+    the repairs of the sticky mask and of the rounding carry): every valid configuration, every source width w ≤ 64,
+    every non-zero magnitude below 2^w of either sign inside `C03_cfloat_from_int_inRange`: the result is canonical
+    and is the value nearest to ±mag, ties to even — in particular a carry into the next binade gives 2^(e+1) and
+    discarded bits .101 are not taken for a tie. Via `fromIntMag_eq_assemble` (the routine = the rounding tail
+    `assemble` on the significant mag·2^(w−1−msb)) and `assemble_round_normal`. -/
+theorem C03_cfloat_from_int_mag_partial (c : Cfg) (hv : c.valid = true) (w : Nat) (neg : Bool) (mag : Nat)
+    (hm0 : mag ≠ 0) (hmw : mag < 2 ^ w) (hw64 : w ≤ 64)
+    (hr : C03_cfloat_from_int_inRange c w mag = true) :
+    fromIntMag c w neg mag < 2 ^ c.nbits ∧
+    nearestNZ c ((if neg then -1 else 1) * (mag : ℚ)) (fromIntMag c w neg mag) = true := by
+  unfold C03_cfloat_from_int_inRange at hr
+  simp only [Bool.and_eq_true, decide_eq_true_eq] at hr
+  obtain ⟨⟨⟨hn64, hfw⟩, hlo⟩, hhi⟩ := hr
+  obtain ⟨_, hfb1, _, _⟩ := valid_facts c hv
+  have hb0 := bias_nonneg c
+  rw [fromIntMag_eq_assemble c hv w neg mag hm0 hmw hw64 hn64 hfw hlo hhi]
+  have hl1 := Nat.log2_self_le hm0
+  have hl2 := Nat.lt_log2_self (n := mag)
+  generalize Nat.log2 mag = msb at *
+  have hmsbw : msb < w := by
+    by_contra h
+    have : 2 ^ w ≤ 2 ^ msb := Nat.pow_le_pow_right (by omega) (by omega)
+    omega
+  generalize ht : w - c.fbits - 1 = t
+  generalize hk : w - msb - 1 = k
+  have hpw : 2 ^ c.fbits * 2 ^ t = 2 ^ msb * 2 ^ k := by rw [← Nat.pow_add, ← Nat.pow_add]; congr 1; omega
+  have hsig : (mag - 2 ^ msb) * 2 ^ k + 2 ^ c.fbits * 2 ^ t = mag * 2 ^ k := by
+    rw [hpw, ← Nat.add_mul]; congr 1; omega
+  rw [hsig]
+  generalize hbi : ((msb : Int) + c.bias).toNat = biased
+  have hbpos : 1 ≤ biased := by omega
+  have hbe2 : biased + 1 < c.emax := by omega
+  have hT := two_pow_pos t
+  have hK := two_pow_pos k
+  have hmk : 2 ^ msb * 2 ^ k ≤ mag * 2 ^ k := Nat.mul_le_mul_right _ hl1
+  have hmk2 : mag * 2 ^ k < 2 ^ (msb + 1) * 2 ^ k := Nat.mul_lt_mul_of_pos_right hl2 hK
+  have r1 : 2 ^ c.fbits ≤ (mag * 2 ^ k) >>> t := by
+    rw [Nat.shiftRight_eq_div_pow, Nat.le_div_iff_mul_le hT, hpw]; exact hmk
+  have r2 : (mag * 2 ^ k) >>> t < 2 ^ (c.fbits + 1) := by
+    rw [Nat.shiftRight_eq_div_pow, Nat.div_lt_iff_lt_mul hT, Nat.pow_succ, Nat.mul_right_comm, hpw,
+      Nat.mul_right_comm, ← Nat.pow_succ]
+    exact hmk2
+  obtain ⟨a1, a2⟩ := assemble_round_normal c hv neg biased (mag * 2 ^ k) t r1 r2 hbpos hbe2
+  refine ⟨a1, ?_⟩
+  have hval : ((mag * 2 ^ k : Nat) : ℚ) * pow2 ((biased : Int) - c.bias - (c.fbits : Int) - (t : Int)) = (mag : ℚ) := by
+    have he : (biased : Int) - c.bias - (c.fbits : Int) - (t : Int) = -(k : Int) := by omega
+    have hk0 : ((2 : ℚ) ^ k) ≠ 0 := by positivity
+    rw [he, pow2_eq_zpow, zpow_neg, zpow_natCast]
+    push_cast
+    field_simp
+  rw [hval] at a2
+  exact a2
+
+/-- signed sources of the four C++ widths: v ≠ 0 in the range of the type, |v| inside the side condition -/
+theorem C03_cfloat_from_int_partial (c : Cfg) (hv : c.valid = true) (w : Nat) (v : Int)
+    (hw : w = 8 ∨ w = 16 ∨ w = 32 ∨ w = 64)
+    (hlo : -(2 ^ (w - 1) : Int) ≤ v) (hhi : v < 2 ^ (w - 1)) (hv0 : v ≠ 0)
+    (hr : C03_cfloat_from_int_inRange c w v.natAbs = true) :
+    fromSigned c w v < 2 ^ c.nbits ∧ nearestNZ c (v : ℚ) (fromSigned c w v) = true := by
+  have hw64 : w ≤ 64 := by rcases hw with h | h | h | h <;> omega
+  have hw1 : 1 ≤ w := by rcases hw with h | h | h | h <;> omega
+  have hpw : (2 : Int) ^ w = 2 * 2 ^ (w - 1) := by
+    rw [← pow_succ']; congr 1; omega
+  have hle64 : (2 : Int) ^ w ≤ 2 ^ 64 := pow_le_pow_right₀ (by norm_num) hw64
+  have h64 : (((2 ^ 64 : Nat) : Int)) = 2 ^ 64 := by norm_num
+  have hmag : ofSigned 64 (if decide (v < 0) = true then -v else v) = v.natAbs := by
+    unfold ofSigned
+    have e : (if decide (v < 0) = true then -v else v) = (v.natAbs : Int) := by
+      by_cases h : v < 0
+      · rw [if_pos (by simpa using h)]; omega
+      · rw [if_neg (by simpa using h)]; omega
+    rw [e]
+    have hlt : (v.natAbs : Int) < ((2 ^ 64 : Nat) : Int) := by rw [h64]; omega
+    rw [Int.emod_eq_of_lt (by omega) hlt]
+    exact Int.toNat_natCast _
+  have hm0 : v.natAbs ≠ 0 := by omega
+  have hmw : v.natAbs < 2 ^ w := by
+    have : (v.natAbs : Int) < 2 ^ w := by omega
+    exact_mod_cast this
+  obtain ⟨p1, p2⟩ := C03_cfloat_from_int_mag_partial c hv w (decide (v < 0)) v.natAbs hm0 hmw hw64 hr
+  unfold fromSigned
+  simp only [hv0, if_false, hmag]
+  refine ⟨p1, ?_⟩
+  have hvq : ((if decide (v < 0) = true then -1 else 1) * (v.natAbs : ℚ)) = (v : ℚ) := by
+    by_cases h : v < 0
+    · have e : (v.natAbs : Int) = -v := by omega
+      have e' : (v.natAbs : ℚ) = -(v : ℚ) := by rw [← Int.cast_natCast (R := ℚ) v.natAbs, e, Int.cast_neg]
+      rw [if_pos (by simpa using h), e']; ring
+    · have e : (v.natAbs : Int) = v := by omega
+      have e' : (v.natAbs : ℚ) = (v : ℚ) := by rw [← Int.cast_natCast (R := ℚ) v.natAbs, e]
+      rw [if_neg (by simpa using h), e']; ring
+  rw [hvq] at p2
+  exact p2
+
+/-- unsigned sources -/
+theorem C03_cfloat_from_uint_partial (c : Cfg) (hv : c.valid = true) (w : Nat) (v : Nat)
+    (hw64 : w ≤ 64) (hv0 : v ≠ 0) (hvw : v < 2 ^ w)
+    (hr : C03_cfloat_from_int_inRange c w v = true) :
+    fromUnsigned c w v < 2 ^ c.nbits ∧ nearestNZ c (v : ℚ) (fromUnsigned c w v) = true := by
+  have h64 : v < 2 ^ 64 := lt_of_lt_of_le hvw (Nat.pow_le_pow_right (by omega) hw64)
+  unfold fromUnsigned
+  rw [Nat.mod_eq_of_lt h64]
+  have := C03_cfloat_from_int_mag_partial c hv w false v hv0 hvw hw64 hr
+  simpa using this
+
+/-- non-vacuity: inside the side condition lie the former carry witness (127 into cfloat<8,4>), 69 = 1000101b into
+    cfloat<8,4> (discarded bits .101, the sticky-gap pattern), 2^62 + 2^38 + 1 into single precision (sticky far below) and
+    |LLONG_MIN| -/
+example : C03_cfloat_from_int_inRange { nbits := 8, es := 4, sub := true } 8 127 = true ∧
+    C03_cfloat_from_int_inRange { nbits := 8, es := 4, sub := true } 16 69 = true ∧
+    C03_cfloat_from_int_inRange { nbits := 32, es := 8, bt := 32, sub := true } 64 (2 ^ 62 + 2 ^ 38 + 1) = true ∧
+    C03_cfloat_from_int_inRange { nbits := 32, es := 8, bt := 32, sub := true } 64 (2 ^ 63) = true := by
+  decide +kernel
+
+/-- **integers beyond the range are NOT handled** (finding cfloat.from_int.out_of_range, recorded: the repair that added
+    the range test was withdrawn because static/cfloat/math/fractional.cpp depends on the old conversion): 127 into
+    cfloat<8,2> without supernormals (largest finite value 3.875) rounds to 2^7, the biased exponent 8 does not fit the
+    2-bit field and the encoding is 0 — the relation demands +inf = 0x7e; 100 gives the negative NaN pattern 0xf2 -/
+theorem C03_cfloat_from_int_range_counterexample :
+    let c : Cfg := { nbits := 8, es := 2 }
+    fromSigned c 8 127 = 0 ∧ nearestNZ c 127 0 = false ∧ nearestNZ c 127 0x7e = true ∧
+    fromSigned c 8 100 = 0xf2 ∧ nearestNZ c 100 0xf2 = false := by
+  decide +kernel
+
+/-- still false in general: es = 1 configurations have bias 0, the integer 1 lies in their subnormal binade and is
+    written without its leading bit (known finding cfloat.from_int.subnormal_target): 1 into cfloat<6,1,sub,sup> gives 0 -/
+theorem C03_cfloat_from_int_subnormal_counterexample :
+    let c : Cfg := { nbits := 6, es := 1, sub := true, sup := true }
+    fromSigned c 8 1 = 0 ∧ nearestNZ c 1 0 = false ∧ nearestNZ c 1 0x08 = true := by
   decide +kernel
 
 theorem C03_cfloat_from_int_full_false : ¬ C03_cfloat_from_int_full := by
   intro h
-  have := h { nbits := 8, es := 4, sub := true } 8 127 (by decide) (by decide) (by decide) (by decide) (by decide)
+  have := h { nbits := 8, es := 2 } 8 127 (by decide) (by decide) (by decide) (by decide) (by decide)
   revert this
   decide +kernel
 
